@@ -218,7 +218,7 @@ class HidSim:
     """One simulation: a real hid driver object + gateway model + virtual loop."""
 
     def __init__(self, kind, initial_seq=1, present=True, reconnect_interval=1, reconnect_limit=None,
-                 exceptions_on_send=True, dev_inst_map=None, glob=False):
+                 exceptions_on_send=True, dev_inst_map=None, glob=False, status_neighbours=None):
         import dali.driver.hid as hidmod
         self.hidmod = hidmod
         self.kind = kind
@@ -241,6 +241,24 @@ class HidSim:
         self.latencies = []           # scripted unit draws in [0, 1), consumed in order; default 0.5
         self.status = []              # (virtual time, status string)
         self.traffic = []             # (virtual time, command, response, error flag)
+        # other parts of the program listen to the connection status too, registered BEFORE the monitor: one that wants
+        # a single notification and unregisters itself inside its callback, one whose callback fails.  The monitor
+        # (and the driver) must not notice them.
+        self.neighbour_calls = []
+        if status_neighbours in ("oneshot", "both"):
+            box = {}
+
+            def once(d, s_):
+                self.neighbour_calls.append(("oneshot", s_))
+                h = box.pop("h", None)
+                if h is not None:
+                    h.unregister()
+            box["h"] = self.driver.connection_status_callback.register(once)
+        if status_neighbours in ("raising", "both"):
+            def bad(d, s_):
+                self.neighbour_calls.append(("raising", s_))
+                raise RuntimeError("scripted status listener failure")
+            self._bad_handle = self.driver.connection_status_callback.register(bad)
         self.driver.connection_status_callback.register(lambda d, s: self.status.append((self.loop.time(), s)))
         self.tasks = []
         self.delivered = []           # (virtual time, report) in the order the host read them
